@@ -142,6 +142,7 @@ type FE struct {
 	curPos   string
 	pendingFork    []*State
 	recoverChecked bool
+	locals         map[string]types.Type
 }
 
 type loopInfo struct {
